@@ -165,6 +165,22 @@ func (c *c05Case) buildSegment(api, encoder string, nfrags int, extras bool) (ou
 				all = append(all, s)
 				data = append(data, d...)
 				pieces = append(pieces, d)
+			case "interval+full": // the first half of the samples as one interval, the others one by one as full samples afterwards
+				if k < (len(c.Hist)+1)/2 {
+					all = append(all, s)
+					pieces = append(pieces, d)
+					if k == (len(c.Hist)+1)/2-1 {
+						var bd []byte
+						for _, pc := range pieces {
+							bd = append(bd, pc...)
+						}
+						if err := frag.AddSampleInterval(mp4.SampleInterval{FirstDecodeTime: uint64(c.Hist[0].Dts + shift[c.Hist[0].T]), Samples: append([]mp4.Sample{}, all...), Data: bd}); err != nil {
+							return nil, err
+						}
+					}
+				} else {
+					frag.AddFullSample(mp4.FullSample{Sample: s, DecodeTime: dts, Data: d})
+				}
 			}
 		}
 		first := uint64(c.Hist[0].Dts + shift[c.Hist[0].T])
@@ -416,7 +432,7 @@ func c05Replay(args []string) error {
 		nline++
 		apis := []string{"fullToTrack", "metaToTrack"}
 		if c.Kind == "single" {
-			apis = []string{"fullToTrack", "full", "meta", "metaToTrack", "samples", "interval"}
+			apis = []string{"fullToTrack", "full", "meta", "metaToTrack", "samples", "interval", "interval+full"}
 		}
 		ids := make([]int64, len(c.Tracks))
 		for i, t := range c.Tracks {
